@@ -55,7 +55,7 @@ Variable c : conf.
 Variable trans : transf.
 
 Definition rel_step (s : rel) (o : op) : rel * out :=
-  match sh_step false c (rsh s) o with
+  match sh_step c (rsh s) o with
   | Some (h, a) => (with_sh s h, a)
   | None =>
     let t := now (rsh s) in
